@@ -52,6 +52,9 @@ pub struct SCfg {
     pub burst: Vec<(usize, usize)>,
     /// Scripted extra responses: (deliver at the k-th recv_probe call, sequence named).
     pub script: Vec<(usize, u16)>,
+    /// A response becomes deliverable only this many `recv_probe` calls after its probe was sent
+    /// (round-trip time longer than the loop period: several probes are in flight).
+    pub latency: usize,
     pub strategy: StrategyConfig,
 }
 
@@ -117,6 +120,7 @@ pub struct SendRec {
 
 #[derive(Debug, Clone)]
 pub struct Pend {
+    pub ready_call: usize,
     pub for_send: usize,
     pub is_target: bool,
     pub addr: IpAddr,
@@ -249,9 +253,11 @@ impl Network for SNet {
                 let reaches_target = w.cfg.target_dist.is_some_and(|d| ttl >= d);
                 if reaches_target {
                     let addr = w.cfg.strategy.target_addr;
-                    w.pending.push(Pend { for_send: idx, is_target: true, addr, dup_done: false });
+                    let ready_call = w.recv_calls + w.cfg.latency;
+                    w.pending.push(Pend { ready_call, for_send: idx, is_target: true, addr, dup_done: false });
                 } else if ttl < w.cfg.target_dist.unwrap_or(w.cfg.path_len) && !w.cfg.silent_hops.contains(&ttl) {
-                    w.pending.push(Pend { for_send: idx, is_target: false, addr: hop_addr(ttl), dup_done: false });
+                    let ready_call = w.recv_calls + w.cfg.latency;
+                    w.pending.push(Pend { ready_call, for_send: idx, is_target: false, addr: hop_addr(ttl), dup_done: false });
                 }
                 Ok(())
             }
@@ -285,25 +291,27 @@ impl Network for SNet {
             Dup,
             Loss,
         }
-        let p = w.pending.len();
+        // responses whose latency has elapsed, oldest first (indices into `pending`)
+        let ready: Vec<usize> = (0..w.pending.len()).filter(|j| w.pending[*j].ready_call <= call).collect();
+        let p = ready.len();
         let m = w.cfg.menu.clone();
         let mut alts = vec![];
         if m.free_kind {
             alts.push(Alt::Timeout);
-            for j in 0..p {
-                alts.push(Alt::Deliver(j));
+            for j in &ready {
+                alts.push(Alt::Deliver(*j));
             }
         } else if p > 0 {
-            alts.push(Alt::Deliver(0));
+            alts.push(Alt::Deliver(ready[0]));
             if m.delay {
                 alts.push(Alt::Timeout);
             }
             if m.reorder {
-                for j in 1..p {
-                    alts.push(Alt::Deliver(j));
+                for j in &ready[1..] {
+                    alts.push(Alt::Deliver(*j));
                 }
             }
-            if m.dup && !w.pending[0].dup_done {
+            if m.dup && !w.pending[ready[0]].dup_done {
                 alts.push(Alt::Dup);
             }
             if m.loss {
@@ -312,6 +320,7 @@ impl Network for SNet {
         } else {
             alts.push(Alt::Timeout);
         }
+        let first_ready = ready.first().copied().unwrap_or(0);
         let c = w.chooser.choose(alts.len());
         let alt = alts[c].clone();
         let dt = if m.time_menu.is_empty() {
@@ -344,18 +353,22 @@ impl Network for SNet {
                 Ok(Some(deliver(&mut w, pe)))
             }
             Alt::Dup => {
-                w.pending[0].dup_done = true;
-                let pe = w.pending[0].clone();
+                w.pending[first_ready].dup_done = true;
+                let pe = w.pending[first_ready].clone();
                 Ok(Some(deliver(&mut w, pe)))
             }
             Alt::Loss => {
-                w.pending.remove(0);
-                if w.pending.is_empty() {
-                    w.events.push(Ev::Recv { time_ns: now, delivered: false });
-                    Ok(None)
-                } else {
-                    let pe = w.pending.remove(0);
-                    Ok(Some(deliver(&mut w, pe)))
+                w.pending.remove(first_ready);
+                let next = (0..w.pending.len()).find(|j| w.pending[*j].ready_call <= call);
+                match next {
+                    None => {
+                        w.events.push(Ev::Recv { time_ns: now, delivered: false });
+                        Ok(None)
+                    }
+                    Some(j) => {
+                        let pe = w.pending.remove(j);
+                        Ok(Some(deliver(&mut w, pe)))
+                    }
                 }
             }
         }
